@@ -66,6 +66,11 @@ checks = {
    text=WHOLE + "decided is that emitted literals are well delimited and numbers verbatim, for every byte value and every path of the scanners: each sink is a preserved escape pair, a harmless constant, a verbatim source byte that cannot be the output delimiter, or a computed byte that cannot be delimiter/backslash/line terminator; number printers write exactly Token.Literal of the unchanged current token; strconv errors lead to nil. Two defects found by the sink rule are repaired by fix: commits (raw double quote in single-quoted strings; unescaped backtick); three decoded-escape sinks (\\xHH, \\uHHHH, \\u{...}) are genuine defects recorded as known findings because a correct repair changes what Token.Literal means. The VALUE an escape denotes is not decided.",
    ref="DESIGN.md §3 C07, §4 F7",
    note="Trusted: go/ssa; the abstract domain (sets per byte value, path-insensitive joins). Source programs with raw line breaks inside quotes are outside the quantifier (invalid JavaScript), so verbatim sinks are judged against the output delimiter only."),
+ "C08": dict(
+   technique="event-tree extraction of every node printer (typed syntax) with a successor relation over events; cross-check against the token types the parser stores in each token field (tables E2/E3); SSA must-follow rule for buffer writes vs mapper advances; who-may-write rules for the mapper",
+   text=WHOLE + "decided for every path of all 28 printers: each recorded mapping uses a token field's Start and is immediately followed by that token's own text (constant whose first lexeme has a type the parser stores in that field, a field filled from the token's literal, or the opening quote of its class); only the identifier printer reads Identifier.Value and its segment is named with what it writes; every byte appended to the buffer is followed by a mapper advance of the same content and pending layout is flushed before a mapping is recorded; token starts are read before any advance (shared with C10); the mapper's position only moves forward and mappings are appended with the current position. The mapping/space order defect and the unaccounted layout/comment bytes found here are repaired by fix: commits. Decoding the map is not done.",
+   ref="DESIGN.md §3 C08",
+   note="Trusted: go/types, go/ssa; the printers are structured code (if/range/early return) - anything else fails closed. The post-pass that trims lines after positions were recorded is a C06 finding."),
 }
 na_pending = "rule set designed in DESIGN.md §3 but not yet armed in xjscheck; not claimed until it is silent on the unchanged tree and shown to fire on seeded variants"
 all_ids = ["C%02d" % i for i in range(1, 17)]
